@@ -6,7 +6,7 @@ use crate::panicwatch::{guard, set_case_str};
 use crate::report::Report;
 use crate::rng::{hex, Rng};
 use coap_lite::option_value::{OptionValueString, OptionValueU16, OptionValueU32, OptionValueU64, OptionValueU8};
-use coap_lite::{CoapOption, Packet};
+use coap_lite::CoapOption;
 use std::collections::LinkedList;
 use std::convert::TryFrom;
 
@@ -274,7 +274,7 @@ fn c06_accessors(rep: &mut Report, r: &mut Rng, n: u64) {
         let k = r.usize_below(5);
         let vals: Vec<u32> = (0..k).map(|_| (r.next_u64() >> r.below(64)) as u32).collect();
         let res = guard(|| {
-            let mut p = Packet::new();
+            let mut p = crate::ctx::context_packet();
             // something else is already there
             p.add_option(opt, vec![9, 9, 9, 9, 9, 9]);
             if r.bool() {
@@ -329,7 +329,7 @@ fn c06_accessors(rep: &mut Report, r: &mut Rng, n: u64) {
         let a = (r.next_u64() >> r.below(64)) as u32;
         let b = (r.next_u64() >> r.below(64)) as u32;
         let res = guard(|| {
-            let mut p = Packet::new();
+            let mut p = crate::ctx::context_packet();
             let before = p.get_observe_value();
             if a % 3 == 0 {
                 // several raw values already there
@@ -364,7 +364,7 @@ fn c06_accessors(rep: &mut Report, r: &mut Rng, n: u64) {
         let len = r.usize_below(7);
         let raw = r.bytes(len);
         let res = guard(|| {
-            let mut p = Packet::new();
+            let mut p = crate::ctx::context_packet();
             p.add_option(CoapOption::Observe, raw.clone());
             p.add_option(CoapOption::Observe, vec![1]);
             p.get_observe_value().map(|x| x.map_err(|_| ()))
